@@ -119,6 +119,23 @@ def structured_family():
                     alts.append("%sN2 %s" % (pre, t_))
                 out.append(("merge3_d%d_%d_%d" % (depth, i2, i3),
                             G.G("S: %s; N1: %s; N2: %s" % (" | ".join(alts), body, body))))
+    # ONE kernel set {A: x y ., B: x y .} whose items are listed in a different ORDER in two
+    # contexts: items of one closure round come in production order, so wrapping one of the two
+    # (C: A c) moves it to a later round.  With different follows per context a construction
+    # that pairs kernel items by position adds lookaheads to the wrong item.
+    for depth, body in ((1, "Tx"), (2, "Tx Ty")):
+        for wrapped in ("A", "B"):
+            for third in (False, True):
+                other = "B" if wrapped == "A" else "A"
+                rules = ["S: Tp M | Tt N" + (" | Tq K" if third else ""),
+                         "M: A Tm | B Tn",
+                         "N: %s Tf | C Tg" % other,
+                         "C: %s Tc" % wrapped,
+                         "A: %s" % body, "B: %s" % body]
+                if third:
+                    rules.append("K: D Th | %s Tm" % wrapped)
+                    rules.append("D: %s Tn" % other)
+                out.append(("kord_d%d_%s%s" % (depth, wrapped.lower(), "_3" if third else ""), G.G("; ".join(rules))))
     return out
 
 
@@ -313,9 +330,16 @@ def stage_lr(work, tier, seed):
                 seps = G.layout_seps(g, rng, len(toks) + 2)
                 text_in, lex = G.render_input(g, toks, rng, seps=seps[2:] or [" "], lead=seps[0],
                                               trail=seps[1])
+                twin = iid % 3 == 0
+                if twin:
+                    # the plain rendering first: the next record is its layout twin
+                    t0, lex0 = G.render_input(g, toks, rng, seps=[" "], lead="", trail="")
+                    ins.append({"iid": iid, "text": t0, "lex": lex0, "partial": False,
+                                "meta": {"kind": kind, "anylex": False}})
                 for partial in (False, True):
                     ins.append({"iid": iid, "text": text_in, "lex": lex, "partial": partial,
-                                "meta": {"kind": kind, "anylex": False}})
+                                "meta": dict({"kind": kind, "anylex": False},
+                                             **({"twin": "layout"} if twin and not partial else {}))})
                 # the same input through a user-style lexer that ignores the expected tokens
                 if not g.get("layout") and iid % 2 == 0:
                     ins.append({"iid": iid, "text": text_in, "lex": lex, "partial": False, "lexer": "any",
@@ -565,6 +589,17 @@ def stage_glr(work, tier, seed):
         cases.append({"id": cid, "grammar": text, "cfg": {"algo": "lr", "tt": "pager"},
                       "glr": {"algo": "glr"}, "max_trees": 150,
                       "meta": {"nodis": bool(nod), "plain": "meta" not in tags}, "inputs": ins})
+        # the same inputs once more through ONE GlrParser object (parse() called repeatedly,
+        # also after failed parses); Layout-rule grammars always, the others now and then
+        if lay or len(cases) % 5 == 0:
+            rid = "%s+reuse|rn" % gid
+            seq = [dict(x, meta={k_: v_ for k_, v_ in x["meta"].items() if k_ not in ("twin", "base")})
+                   for x in ins if not x["partial"] and x.get("lexer") != "any"]
+            gtext[rid] = text
+            for x in seq:
+                inputs["%s#%d" % (rid, x["iid"])] = [x["text"], x["lex"]]
+            cases.append({"id": rid, "grammar": text, "cfg": {"algo": "glr"}, "reuse": True, "max_trees": 150,
+                          "meta": {"nodis": bool(nod), "plain": "meta" not in tags}, "inputs": seq})
     # lexically ambiguous grammars, all lexical strategies off: the oracle works on the
     # token lattice the harness computes with its own matcher
     for gid, text, terms in lexamb_grammars(seed, 10 if tier == "quick" else 60):
